@@ -67,6 +67,9 @@ BIG_TEXTS = [
     # quotients of large constants with a genuine fractional part, and cancellation after them
     "2469135781 / 2 - 1234567890", "12345678901 / 2 + x", "(10^12 + 1) / 2", "1000000001 / 4 * x", "9007199254740993 / 2", "x + 2469135781 / 2 - 1234567890",
     "(2^40 + 1) / 2^20 - 2^20", "123456789012 / 1000 - 123456789",
+    # folded FLOAT constants at the boundaries of float printing (>= 1e16, >= 1e21/1e22, < 1e-4, denormal-ish)
+    "123456789.5 * 1000000000 + x", "2.5 * 10^21 - x", "0.5 * 10^22 + x", "(1 / 3) * 10^20", "10^22 * 0.1", "0.00001 / 1000000 + x", "0.5^40 * x", "2.5^60 + x",
+    "0.1^300 + x", "1.5 * 10^300 * x", "9007199254740993 * 0.5", "0.3 - 0.1 - 0.2 + x",
     "0.1 + 0.2 + 0.3 + x", "1000000 * 0.000001", "33 * 0.01 - x", "(1 / 3) * 3 = x", "x = 1 / 1000000",
 ]
 
